@@ -198,17 +198,41 @@ func (s *state) getBlock(name string) *parse.BlockNode {
 	return nil
 }
 
+// Method getParentBlock returns the next block with the given name after the
+// block currently being rendered, in the order of the inheritance chain.
 func (s *state) getParentBlock(name string) *parse.BlockNode {
-	rootFound := false
+	currentFound := false
 	for _, blocks := range s.blocks {
 		if block, ok := blocks[name]; ok {
-			if rootFound {
+			if currentFound {
 				return block
 			}
-			rootFound = true
+			if block == s.current {
+				currentFound = true
+			}
 		}
 	}
 	return nil
+}
+
+// Method walkBlockBody renders the body of the given block into a buffer,
+// with the block as the current block (so that parent() inside it resolves
+// relative to it) and its defining template as the current name.
+func (s *state) walkBlockBody(blk *parse.BlockNode) (Value, error) {
+	pout, pcur, pname := s.out, s.current, s.name
+	buf := &bytes.Buffer{}
+	s.out = buf
+	s.current = blk
+	if blk.Origin != "" {
+		s.name = blk.Origin
+	}
+	err := s.walk(blk.Body)
+	s.current, s.name = pcur, pname
+	if err != nil {
+		return nil, err
+	}
+	s.out = pout
+	return buf.String(), nil
 }
 
 // Method walk is the main entry-point into template execution.
@@ -809,14 +833,7 @@ func (s *state) evalFunction(exp *parse.FuncExpr) (Value, error) {
 		}
 		name := s.current.Name
 		if blk := s.getParentBlock(name); blk != nil {
-			pout := s.out
-			buf := &bytes.Buffer{}
-			s.out = buf
-			if err := s.walk(blk.Body); err != nil {
-				return nil, err
-			}
-			s.out = pout
-			return buf.String(), nil
+			return s.walkBlockBody(blk)
 		}
 		return nil, errors.New("Unable to locate block \"" + name + "\"")
 	case "block":
@@ -830,15 +847,7 @@ func (s *state) evalFunction(exp *parse.FuncExpr) (Value, error) {
 		}
 		name := CoerceString(val)
 		if blk := s.getBlock(name); blk != nil {
-			pout := s.out
-			buf := &bytes.Buffer{}
-			s.out = buf
-			err = s.walk(blk.Body)
-			if err != nil {
-				return nil, err
-			}
-			s.out = pout
-			return buf.String(), nil
+			return s.walkBlockBody(blk)
 		}
 		return nil, errors.New("Unable to locate block \"" + name + "\"")
 	}
